@@ -62,11 +62,13 @@ def run(prop, tier):
         statuses = collections.Counter()
         outs = {}
         nper = max(1, C.NCPU // 4)
+        nfp = 96 if q else 600
         def runcfg(i):
             o1 = os.path.join(wd, "h_" + names[i])
             o2 = os.path.join(wd, "f_" + names[i])
             C.run_driver(exes[i], "hist", nh, o1, args=hargs, workers=nper)
             C.run_driver(exes[i], "loaddump", len(allfiles), o2, args=["--list", lst, "--resave", "1"], workers=nper)
+            C.run_driver(exes[i], "fpprobe", nfp, os.path.join(wd, "p_" + names[i]), workers=nper)
             return o1, o2
         with ThreadPoolExecutor(4) as ex:
             res = list(ex.map(runcfg, range(len(cfgs))))
@@ -109,8 +111,17 @@ def run(prop, tier):
                     what = "outcome" if [l for l in cur[0] if not l.startswith("RES")] != [l for l in ref[0] if not l.startswith("RES")] else "reads_or_result" if cur[0] != ref[0] else "loaded_snapshot" if cur[1] != ref[1] else "resaved_bytes"
                     viols.append(dict(prop="C19", key="config_dependent/file/" + what, detail="%s: %s vs %s differ in %s" % (os.path.basename(allfiles[i]), base, n, what), case=i, files=[allfiles[i]]))
                     break
-        cov = dict(evaluations=(nh + len(allfiles)) * len(cfgs), distinct_nontrivial=nh + len(allfiles),
-                   rule="each seeded API history (with final save) and each corpus / pattern file (load, snapshot, re-save) is executed by the same driver linked against every configuration of the library built by the repository's CMake; filtered event logs (operations, outcomes incl. exception classes, monitor lines), snapshot JSON and SHA-256 of saved files must be identical to the first configuration; distinct = distinct workload items",
+        for i in range(nfp):
+            ref = filtered_log(os.path.join(wd, "p_" + base, "case_%d.log" % i))
+            compared["float_environment_probe"] += 1
+            for n in names[1:]:
+                cur = filtered_log(os.path.join(wd, "p_" + n, "case_%d.log" % i))
+                if cur != ref:
+                    first = next(("%s  <>  %s" % (a[:200], b[:200]) for a, b in zip(ref, cur) if a != b), "log lengths differ")
+                    viols.append(dict(prop="C19", key="config_dependent/float_environment_probe", detail="probe %d: %s vs %s: %s" % (i, base, n, first), case=i))
+                    break
+        cov = dict(evaluations=(nh + len(allfiles) + nfp) * len(cfgs), distinct_nontrivial=nh + len(allfiles) + nfp,
+                   rule="each seeded API history (with final save) and each corpus / pattern file (load, snapshot, re-save) is executed by the same driver linked against every configuration of the library built by the repository's CMake; filtered event logs (operations, outcomes incl. exception classes, monitor lines), snapshot JSON and SHA-256 of saved files must be identical to the first configuration; plus a floating-point-environment probe (rates at the extremes of the float range driving the library's only float arithmetic); distinct = distinct workload items",
                    samples=[dict(configurations=names), dict(history_args=hargs), dict(file=os.path.basename(allfiles[0]))], configurations=names,
                    items_compared=dict(compared), child_end_status_all_configs=dict(statuses))
         inconc = None
